@@ -476,20 +476,20 @@ class AnnotationCollection(AbstractFeatureIntervalCollection):
 
         # if this subset operation is about to walk off the edge of the chunk this collection exists on,
         # don't allow this
-        if self.is_chunk_relative and start < self.chromosome_location.start:
-            start = self.chromosome_location.start
+        if self.is_chunk_relative and start < chrom_ancestor.start:
+            start = chrom_ancestor.start
         chunk_relative_start = chrom_ancestor.parent_to_relative_pos(start)
 
         # handle the edge case where the end is the end of the current chunk
-        if end == self.end:
+        if end == chrom_ancestor.end:
             chunk_relative_end = (
                 self.lift_over_to_first_ancestor_of_type(SequenceType.CHROMOSOME).parent_to_relative_pos(end - 1) + 1
             )
         else:
             # if this subset operation is about to walk off the edge of the chunk this collection exists on,
             # don't allow this
-            if self.is_chunk_relative and end > self.chromosome_location.end:
-                end = self.chromosome_location.end - 1
+            if self.is_chunk_relative and end > chrom_ancestor.end:
+                end = chrom_ancestor.end - 1
             chunk_relative_end = self.lift_over_to_first_ancestor_of_type(
                 SequenceType.CHROMOSOME
             ).parent_to_relative_pos(end)
